@@ -33,6 +33,11 @@ def run(ctx) -> None:
     ctx.rule("h.determinism", "no iteration over sets, no hash() / id() / fingerprint() standing in for contents in join / full_join and "
                               "their helpers (also helpers introduced later): a row is paired by its key values only", 2)
     ctx.section("name-resolution", nameres.check, ctx, "f.name-resolution")
+    # (`keeps every left row`: a left row is also lost when the join REFUSES an admissible key pair - an all-None key column on
+    #  either side against a typed one; the rejections of _validate_join_keys, shared with C09.a)
+    ctx.rule("i.key-validation", "_validate_join_keys rejects on spec form, lengths and key KIND only (as C09.a): an all-None / nullable key "
+                                 "column on either side is admitted, so every left row is kept and padded", 1)
+    ctx.section("key-validation", jr.key_validation, ctx, "i.key-validation")
     facts = {}
 
     def inner():
